@@ -410,6 +410,8 @@ fn three_sends(prefix: &str, thorough: bool, class: Class) -> Vec<Program> {
         consumers.push(vec![x, x, x]);
     }
     consumers.push(vec![Op::Recv, Op::Drain(VecState::Empty), Op::Recv]);
+    consumers.push(vec![Op::Recv, Op::Recv, Op::Recv, Op::Recv]);
+    consumers.push(vec![Op::Recv, Op::Drain(VecState::Empty), Op::Drain(VecState::Empty)]);
     consumers.push(vec![Op::FRecv(0), Op::Poll(0, 0), Op::Len(Side::R), Op::TryRecv, Op::TryRecv]);
     product(
         prefix,
@@ -583,6 +585,33 @@ fn c02(thorough: bool) -> Suite {
         ));
     }
     ps.extend(three_sends("c02-3sends", thorough, Class::P));
+    // a pending (non-blocking) sender behind a full buffer, one receive of every
+    // kind, then a later send from the same thread: the pending value must
+    // still come out first
+    {
+        let xs = [Op::Recv, Op::TryRecv, Op::TryRecvRt, Op::RecvT(2), Op::RecvRepoll];
+        let mut consumers: Vec<Vec<Op>> = xs
+            .iter()
+            .map(|x| vec![Op::Wait(0), *x, Op::Set(1), Op::Wait(2), Op::Drain(VecState::Empty), Op::Set(3)])
+            .collect();
+        consumers.push(vec![Op::Wait(0), Op::FRecv(0), Op::Poll(0, 0), Op::Set(1), Op::Wait(2), Op::Drain(VecState::Empty), Op::Set(3)]);
+        ps.extend(product(
+            "c02-pending-then-send",
+            &[
+                vec![
+                    vec![Op::TrySend, Op::TrySend, Op::FSend(0), Op::Poll(0, 0), Op::Set(0), Op::Wait(1), Op::TrySend, Op::Set(2), Op::Wait(3)],
+                    vec![Op::TrySend, Op::FSend(0), Op::Poll(0, 0), Op::FSend(1), Op::Poll(1, 0), Op::Set(0), Op::Wait(1), Op::TrySend, Op::Set(2), Op::Wait(3)],
+                ],
+                consumers,
+            ],
+            &[Cap::B(1), Cap::B(2)],
+            &[Class::P],
+            &[vec![(A, A), (S, S)], vec![(A, A), (A, A)]],
+            &[(S, Conv::Clone)],
+            &[env(2, 1, None, UNB)],
+            false,
+        ));
+    }
     // two producers ordered through a flag; consumer receives twice
     ps.extend(product(
         "c02-2p-flag",
@@ -656,6 +685,23 @@ fn c03(thorough: bool) -> Suite {
         &[env(2, 1, None, pb2(thorough))],
     ));
     ps.extend(three_sends("c03-3sends", thorough, Class::P));
+    // the stream
+    ps.extend(product(
+        "c03-stream",
+        &[
+            seqs_upto(&[Op::Send, Op::TrySend, Op::Close(Side::S)], 2),
+            vec![
+                vec![Op::FStream(0), Op::StreamNext(0), Op::StreamNext(0), Op::StreamNext(0)],
+                vec![Op::FStream(0), Op::Poll(0, 0), Op::StreamNext(0), Op::IsTerm, Op::StreamNext(0)],
+            ],
+        ],
+        &[Cap::B(0), Cap::B(1)],
+        &[Class::P],
+        &[vec![(S, S), (A, A)], vec![(A, A), (A, A)]],
+        &[(S, Conv::Clone)],
+        &[env(2, 1, None, pb2(thorough))],
+        false,
+    ));
     // buffer full + blocked sender + a third party sending while a receive
     // refills the buffer
     ps.extend(product(
@@ -880,6 +926,74 @@ fn c06(thorough: bool) -> Suite {
         &all_flavours(2),
         &[(S, Conv::Clone)],
         &[env(2, 1, None, pb2(thorough))],
+        false,
+    ));
+    // room made by a receive of any kind must reach the blocked sender: the
+    // receiver does nothing further until the sender reports completion
+    {
+        let xs = [Op::Recv, Op::TryRecv, Op::TryRecvRt, Op::RecvT(2), Op::Next, Op::RecvRepoll, Op::Drain(VecState::Spare)];
+        let mut rs: Vec<Vec<Op>> = xs.iter().map(|x| vec![Op::Wait(1), *x, Op::Wait(0)]).collect();
+        rs.push(vec![Op::Wait(1), Op::FRecv(0), Op::Poll(0, 0), Op::Wait(0)]);
+        rs.push(vec![Op::Wait(1), Op::FStream(0), Op::StreamNext(0), Op::Wait(0)]);
+        ps.extend(product(
+            "c06-refill",
+            &[
+                vec![
+                    vec![Op::TrySend, Op::Set(1), Op::Send, Op::Set(0)],
+                    vec![Op::TrySend, Op::Set(1), Op::SendRepoll, Op::Set(0)],
+                    vec![Op::TrySend, Op::TrySend, Op::Set(1), Op::Send, Op::Set(0)],
+                ],
+                rs,
+            ],
+            &[Cap::B(1), Cap::B(2)],
+            &[Class::L],
+            &all_flavours(2),
+            &[(S, Conv::Clone)],
+            &[env(2, 1, None, pb2(thorough))],
+            false,
+        ));
+    }
+    // a pending future re-polled with another waker before the peer has done
+    // anything must come back Pending (the peer waits for this thread)
+    ps.extend(product(
+        "c06-repoll-idle",
+        &[
+            vec![
+                vec![Op::Wait(0), Op::Send, Op::Set(1)],
+                vec![Op::Wait(0), Op::TrySend, Op::Set(1)],
+                vec![Op::Wait(0), Op::Close(Side::S), Op::Set(1)],
+            ],
+            vec![
+                vec![Op::FRecv(0), Op::Poll(0, 0), Op::Poll(0, 1), Op::Set(0), Op::Wait(1), Op::Poll(0, 1)],
+                vec![Op::FStream(0), Op::Poll(0, 0), Op::Poll(0, 1), Op::Set(0), Op::Wait(1), Op::Poll(0, 1)],
+                vec![Op::FRecv(0), Op::Poll(0, 0), Op::FRecv(1), Op::Poll(1, 0), Op::Poll(1, 1), Op::Set(0), Op::Wait(1), Op::Poll(0, 0)],
+            ],
+        ],
+        &[Cap::B(0), Cap::B(1)],
+        &[Class::L],
+        &[vec![(S, S), (A, A)], vec![(A, A), (A, A)]],
+        &[(S, Conv::Clone)],
+        &[env(2, 1, None, UNB)],
+        false,
+    ));
+    ps.extend(product(
+        "c06-repoll-idle-s",
+        &[
+            vec![
+                vec![Op::FSend(0), Op::Poll(0, 0), Op::Poll(0, 1), Op::Set(0), Op::Wait(1), Op::Poll(0, 1)],
+                vec![Op::FSend(0), Op::Poll(0, 0), Op::FSend(1), Op::Poll(1, 0), Op::Poll(1, 1), Op::Set(0), Op::Wait(1), Op::Poll(0, 0)],
+            ],
+            vec![
+                vec![Op::Wait(0), Op::Recv, Op::Set(1)],
+                vec![Op::Wait(0), Op::TryRecv, Op::Set(1)],
+                vec![Op::Wait(0), Op::Close(Side::R), Op::Set(1)],
+            ],
+        ],
+        &[Cap::B(0)],
+        &[Class::L],
+        &[vec![(A, A), (S, S)], vec![(A, A), (A, A)]],
+        &[(S, Conv::Clone)],
+        &[env(2, 1, None, UNB)],
         false,
     ));
     // two ops: the second wait of a thread meets stale tokens of the first
